@@ -1,6 +1,6 @@
 """C05 Every instruction word executes with the specified semantics."""
 import astq
-from rules import decode, jit, jitcross, rv64, a64sem, sshash
+from rules import a64hsem, a64sem, decode, jit, jitcross, rv64, rvhsem, sshash, x86hsem
 
 LEVEL = 'other'
 TECHNIQUE = 'exhaustive path enumeration of the decoder against the specification tables + known-bits abstract interpretation of FP bit-pattern constructors; known-bits abstract execution of the A64 immediate helpers with the architectural meaning of the emitted instructions'
@@ -39,3 +39,6 @@ def run(ctx, R):
     jit.rule_tab_opc(ctx, R, 'rvv', F)
     jitcross.rule_immneg(ctx, R, 'rvv')
     rv64.rule_branch_forms(ctx, R)   # CBRANCH target: each emitted branch form reaches exactly the distances it is chosen for
+    x86hsem.rule_hsem(ctx, R)
+    a64hsem.rule_hsem(ctx, R)
+    rvhsem.rule_hsem(ctx, R)
